@@ -33,7 +33,7 @@ import pyden
 import ufl2coq
 import vlib
 
-HAND_FILES = ["Props/C05_model.v", "Props/C05_findings.v", "Props/C05_rec.v"]
+HAND_FILES = ["Props/C05_model.v", "Props/C05_findings.v", "Props/C05_rec.v", "Props/C05_wf.v"]
 
 EXTRA_HEADER = r'''
 (* laws of the complex structure / conditional / power used by the folding shortcuts; each is a law
@@ -166,6 +166,25 @@ def known_class(req):
                 Cc, kk = B.ufl_operands
                 if isinstance(Cc, ListTensor) and len(kk) == 1 and kk[0] not in tuple(jj):
                     return "ct-simplify-keyerror"
+    # binder shortcuts applied to operands that depend on the bound indices
+    if g in ("ComponentTensor", "as_tensor") and isinstance(req.operands[0], Indexed):
+        A0, ii0 = req.operands[0].ufl_operands
+        ii = tuple(req.extra_indices)
+        if tuple(ii0.indices()) == ii and {x.count() for x in ii} & set(A0.ufl_free_indices):
+            return "componenttensor-shortcut-dependent" if g == "ComponentTensor" else "as-tensor-shortcut-dependent"
+    if g in ("Indexed", "getitem"):
+        A = req.info.get("A", req.operands[0])
+        if isinstance(A, ComponentTensor) and isinstance(A.ufl_operands[0], Indexed):
+            Cc = A.ufl_operands[0].ufl_operands[0]
+            if {x.count() for x in A.ufl_operands[1]} & set(Cc.ufl_free_indices):
+                return "ct-simplify-indexed-dependent"
+    if g == "ListTensor":
+        es = req.info.get("es", [])
+        if es and all(isinstance(e, Indexed) for e in es) and all(e.ufl_operands[0] is es[0].ufl_operands[0] for e in es):
+            base = es[0].ufl_operands[0]
+            pre = [x.count() for x in es[0].ufl_operands[1].indices()[:-1] if isinstance(x, Index)]
+            if len(set(pre)) != len(pre) or set(pre) & set(base.ufl_free_indices):
+                return "listtensor-slice-shortcut-bound-prefix"
     if g == "Abs" and isinstance(req.operands[0], (C.Abs, C.Conj)):
         return "abs-abs-self-loop"      # Abs.__new__ returns an Abs instance: __init__ runs on it again
     if g == "getitem" and isinstance(req.operands[0], (C.Identity, C.PermutationSymbol)) \
@@ -352,7 +371,14 @@ def contains_nonint_literal(e):
     return False
 
 
-FIX = {"abs": False, "is": False, "ct": False, "lt": False}     # set by probe_fixes() in main()
+FIX = {"abs": False, "is": False, "ct": False, "lt": False, "cn": False, "at": False, "cs": False, "l2": False}
+# flag -> id of the finding whose repair it detects.  A flag that is False although the finding is not listed as
+# OPEN means the defect is (back) in the tree: VIOLATION with the probe as failing input.
+FLAG_FINDING = {"abs": "abs-abs-self-loop", "is": "indexsum-simplify-capture", "ct": "ct-simplify-keyerror",
+                "lt": "listtensor-ct-shortcut", "cn": "componenttensor-shortcut-dependent",
+                "at": "as-tensor-shortcut-dependent", "cs": "ct-simplify-indexed-dependent",
+                "l2": "listtensor-slice-shortcut-bound-prefix"}
+PROBE_TEXT = {}
 
 
 def probe_fixes():
@@ -377,6 +403,24 @@ def probe_fixes():
         out["ct"] = False
     rows = [ComponentTensor(Indexed(T, mi((r, i, j))), mi((j, i))) for r in (0, 1)]
     out["lt"] = ListTensor(*rows) is not T
+    w = uflgen.coef((2,))
+    Ld = ListTensor(Indexed(v, mi((i,))), Indexed(w, mi((i,))))            # free index i
+    dL = G5.raw_node(Indexed, Ld, mi((i,)))                                # Ld[i]: depends on i
+    out["cn"] = ComponentTensor(dL, mi((i,))) is not Ld
+    out["at"] = ufl.as_tensor(dL, (i,)) is not Ld
+    ctd = G5.raw_node(ComponentTensor, G5.raw_node(Indexed, G5.raw_node(Conj, Ld), mi((i,))), mi((i,)))
+    out["cs"] = Indexed(ctd, mi((0,))).ufl_free_indices == ()
+    out["l2"] = ListTensor(G5.raw_node(Indexed, T, mi((i, i, 0))),
+                           G5.raw_node(Indexed, T, mi((i, i, 1)))).ufl_free_indices == (i.count(),)
+    PROBE_TEXT.update({
+        "abs": "Abs(Conj(f)) keeps the operand Conj(f) after the second __init__ / Abs(Abs(f)) re-initialises",
+        "is": "Indexed(IndexSum(as_tensor(M[i,k],(k,)), i), (i,)) moves the indexing inside the sum (capture)",
+        "ct": "Indexed(as_tensor(L[m],(j,)), (0,)) raises KeyError",
+        "lt": "ListTensor(as_tensor(T[0,i,j],(j,i)), as_tensor(T[1,i,j],(j,i))) returns T",
+        "cn": "ComponentTensor(L[i], (i,)) with L = ListTensor(v[i], w[i]) returns L (free index i)",
+        "at": "as_tensor(L[i], (i,)) with L = ListTensor(v[i], w[i]) returns L (free index i)",
+        "cs": "Indexed(ComponentTensor(conj(L)[i], (i,)), (0,)) returns conj(L)[0] with free index i",
+        "l2": "ListTensor(T[i,i,0], T[i,i,1]) returns as_tensor(sum_i T[i,i,:]) without the free index i"})
     return out
 
 
@@ -407,7 +451,8 @@ def model_call(req, s):
         return f"(mk_{g.lower()} ff_none {s.e(ops[0])})", False
     if g == "Indexed":
         A, mi = req.info["A"], req.info["mi"]
-        return f"(mk_indexed le_any ff_none {coqb(FIX['is'])} {coqb(FIX['ct'])} 24 {s.e(A)} {s.mi(tuple(mi))})", True
+        return (f"(mk_indexed le_any ff_none {coqb(FIX['is'])} {coqb(FIX['ct'])} {coqb(FIX['cs'])} 24 "
+                f"{s.e(A)} {s.mi(tuple(mi))})"), True
     if g == "IndexSum":
         x = req.extra_indices[0]
         d = G5.fi_of(ops[0]).get(x.count(), 0)
@@ -415,7 +460,9 @@ def model_call(req, s):
     if g in ("ComponentTensor", "as_tensor"):
         fi = G5.fi_of(ops[0])
         pairs = [(x, fi.get(x.count(), 0)) for x in req.extra_indices]
-        return f"(mk_component_tensor {s.e(ops[0])} {s.ixd(pairs)})", True
+        if g == "as_tensor":
+            return f"(mk_as_tensor {coqb(FIX['cn'])} {coqb(FIX['at'])} {s.e(ops[0])} {s.ixd(pairs)})", True
+        return f"(mk_component_tensor {coqb(FIX['cn'])} {s.e(ops[0])} {s.ixd(pairs)})", True
     if g == "ListTensor":
         return f"(mk_list_tensor {coqb(FIX['lt'])} [" + "; ".join(s.e(e) for e in req.info["es"]) + "])", True
     if g == "conditional":
@@ -619,6 +666,14 @@ def main(run):
     known = {k["id"]: k for k in vlib.load_known_findings("C05")}
     FIX.update(probe_fixes())
     run.extra["repairs_detected_in_tree"] = dict(FIX)
+    for flag, fid in FLAG_FINDING.items():
+        if not FIX[flag] and fid not in known:
+            # the tree shows the defective behaviour of a finding that is not (or no longer) listed as open: the models
+            # would follow the defective variant, so report it here, with the probe as failing input
+            run.violation({"what": "defect of a finding that is not listed as open is present in the tree "
+                                   "(regression of a repaired finding, or a new instance)",
+                           "finding": fid, "failing_input": PROBE_TEXT.get(flag, flag),
+                           "reproduce": "bin/check C05 (py/props/C05.py: probe_fixes)"}, True)
     groups = [g for g in os.environ.get("VERIF_C05_GROUPS", "").split(",") if g]    # self-tests only
     P, reqs = G5.all_requests(run.tier, rng, groups=groups, seed=run.seed)
     if groups:
